@@ -239,3 +239,31 @@ Proof.
   - intros x. apply (reconcile_debited asset p (nonzero cr) ps x Hp Hr Hrec).
 Qed.
 End SendSpec.
+
+Lemma run_send_negative vs r m src dst asset n st :
+  eval_as vs m expect_monetary = Ok (asset, n) -> n < 0 ->
+  run_send vs (SVLit r m) src dst st = Err (NegativeAmountErr n).
+Proof.
+  intros Hm Hn. unfold run_send, send_lists. rewrite Hm. cbn [bind].
+  replace (n <? 0) with true by lia. reflexivity.
+Qed.
+
+(* C09 core: statements compose sequentially *)
+Lemma run_stmts_app vs ss1 ss2 st :
+  run_stmts vs (ss1 ++ ss2) st =
+  ('(ps1, st1) <- run_stmts vs ss1 st ;; '(ps2, st2) <- run_stmts vs ss2 st1 ;; Ok (ps1 ++ ps2, st2)).
+Proof.
+  revert st. induction ss1 as [|s ss1 IH]; intros st; cbn [app run_stmts bind].
+  - destruct (run_stmts vs ss2 st) as [[ps2 st2]| |]; reflexivity.
+  - destruct (run_stmt vs s st) as [[ps st1]| |]; cbn [bind]; try reflexivity.
+    rewrite IH. destruct (run_stmts vs ss1 st1) as [[ps1 st1']| |]; cbn [bind]; try reflexivity.
+    destruct (run_stmts vs ss2 st1') as [[ps2 st2]| |]; cbn [bind]; try reflexivity.
+    now rewrite app_assoc.
+Qed.
+
+Lemma run_stmts_abort vs ss1 s ss2 st st1 ps1 e :
+  run_stmts vs ss1 st = Ok (ps1, st1) -> run_stmt vs s st1 = Err e ->
+  run_stmts vs (ss1 ++ s :: ss2) st = Err e.
+Proof.
+  intros H1 H2. rewrite run_stmts_app, H1. cbn [bind run_stmts]. rewrite H2. reflexivity.
+Qed.
